@@ -358,6 +358,7 @@ type clientState struct {
 }
 
 func execCOp(rig *Rig, cs *clientState, o COp) COut {
+	stepBegin()
 	f := rig.FS
 	fail2 := func(err error) COut { return COut{Err: err.Error()} }
 	switch o.K {
